@@ -1,0 +1,9 @@
+//go:build !verif
+
+// Package verifhook provides the instrumentation points used by the external
+// verification harness. Without the `verif` build tag every hook is an empty
+// function that the compiler inlines away.
+package verifhook
+
+// At marks a verification hook point; it does nothing unless built with -tags verif.
+func At(point string, obj any, arg any) {}
